@@ -202,10 +202,22 @@ Section Analyzer.
 
   Definition zmax (s : state) : Z := fold_right Z.max 0%Z s.
 
-  (* fock_basis(len(input), n_photons); threshold detectors keep max(s) == 1;
+  (* fock_basis(len(input), n_photons); threshold detectors keep max(s) <= 1
+     (fix 3ccdb7f; before: max(s) == 1, see qs_candidates_pinned);
      post-selection; "Heralding function removed all possible outputs" *)
   Definition qs_candidates (ps : state -> res bool) (pc : bool) (input : state) : res (list state) :=
     if Nat.eqb (length input) 0 then Err OtherError else     (* fock_basis(0, n): RecursionError *)
+    let basis := map (map Z.of_nat) (fock_sums (length input) (Z.to_nat (zsum input))) in
+    let basis := if pc then basis else filter (fun s => Z.leb (zmax s) 1) basis in
+    do outs <- filterR ps basis;
+    match outs with
+    | [] => Err ValueError
+    | _ => Ok outs
+    end.
+
+  (* the threshold filter before fix 3ccdb7f: max(s) == 1, which refuses a vacuum input *)
+  Definition qs_candidates_pinned (ps : state -> res bool) (pc : bool) (input : state) : res (list state) :=
+    if Nat.eqb (length input) 0 then Err OtherError else
     let basis := map (map Z.of_nat) (fock_sums (length input) (Z.to_nat (zsum input))) in
     let basis := if pc then basis else filter (fun s => Z.eqb (zmax s) 1) basis in
     do outs <- filterR ps basis;
